@@ -62,6 +62,9 @@ def letters(tier):
             else:
                 cl = 'cfg ' + H.hx(c)
             L['%s/%s' % (cn, en)] = ['resetsinks', cl, e]
+            # the same call made by a vfork() child whose exec SUCCEEDS (it never returns; the parent goes on in the memory the child leaves behind)
+            if en == 's' and cn in ('mf', 'errlog', 'all', 'dsmax', 'logmax', 'out_file2', 'fac', 'ident', 'fc_drop', 'out_stdout', 'absent'):
+                L['%s/v' % cn] = ['resetsinks', cl, 'v' + e.replace(' -1 2', ' 0 0')]
     return L
 
 
@@ -85,7 +88,7 @@ def emission(call, w):
         else:
             b = nz(b)
         out[s] = H.fnv(b) + ':%d' % len(b)
-        if call['at_entry'][s]['fnv'] != a['fnv']:
+        if 'at_entry' in call and call['at_entry'][s]['fnv'] != a['fnv']:      # (a vfork child that execs successfully leaves no snapshot at entry)
             out[s] += ':late'
     return tuple(sorted(out.items()))
 
@@ -117,7 +120,7 @@ def run(ck):
             bad = []
             if a in fresh and em != fresh[a]:
                 bad.append('emission_differs_from_fresh_process')
-            if call['rec_calls'] != 1 or call['ret'] != -1 or call['errno'] != 2:
+            if call['rec_calls'] != 1 or (call['ret'], call['errno']) != ((-1, 2) if not a.endswith('/v') else (0, call['errno'])):
                 bad.append('exec_passthrough')
             if bad:
                 f = dict(fresh.get(a, ()))
@@ -134,7 +137,7 @@ def run(ck):
         # guard pass: ordered pairs (first letters: those that set something non-default, quick: one exec letter)
         names = list(L)
         # quick: first letters = every configuration with the short call, plus the long call under the configurations that raise errors / hit limits
-        firsts = [n for n in names if n.endswith('/s') or n.split('/')[0] in ('logmax', 'dsmax', 'errlog', 'all', 'garbage', 'inv_out', 'dup_out')] if ck.tier == 'quick' else names
+        firsts = [n for n in names if n.endswith(('/s', '/v')) or n.split('/')[0] in ('logmax', 'dsmax', 'errlog', 'all', 'garbage', 'inv_out', 'dup_out')] if ck.tier == 'quick' else names
         pairs = [(a, b) for a in firsts for b in names]
         for pr, r in zip(pairs, pmap(lambda p: ex.run_history(list(p)), pairs)):
             total_trans += 1
